@@ -21,8 +21,16 @@ WRITER_CONFIGS = {
 EDITS = ["add_style", "caption_time", "node_text", "caption_style", "retime", "layout_deep", "style_deep"]
 
 
-def cfg_key(kind, opts):
-    return kind + "|" + json.dumps(opts, sort_keys=True)
+# arguments of the write() call itself (not of the constructor): they hold for that call only
+WRITE_ARGS = {"DFXP": [{"force": "fr-FR"}, {"force": "en-US"}], "DFXP-single": [{"force": "fr-FR"}], "DFXP-legacy": [{"force": "fr-FR"}],
+              "WebVTT": [{"lang": "fr-FR"}]}
+# constructor options of readers (a reader object made with them is reused like any other)
+READER_CTOR = {"WebVTT": [{"ignore_timing_errors": False}, {"time_shift_milliseconds": 500}],
+               "DFXP": [{"read_invalid_positioning": True}]}
+
+
+def cfg_key(kind, opts, args=None):
+    return kind + "|" + json.dumps(opts, sort_keys=True) + ("|" + json.dumps(args, sort_keys=True) if args else "")
 
 
 def apply_edit(cs, name):
@@ -81,7 +89,8 @@ def make_from_term(term, docs=None):
     docs = docs or corpus.docs()
     head = term[0]
     if head[0] == "read":
-        cs = READERS[head[1]]().read(docs[head[3]][1], **head[2])
+        ctor = head[4] if len(head) > 4 else {}
+        cs = READERS[head[1]](**ctor).read(docs[head[3]][1], **head[2])
     else:
         cs = build.caption_set(corpus.BUILDS[head[1]])
     for e in term[1:]:
@@ -89,9 +98,9 @@ def make_from_term(term, docs=None):
     return cs
 
 
-def write_digest(kind, opts, cs):
+def write_digest(kind, opts, cs, args=None):
     try:
-        out = WRITERS[kind](**opts).write(cs)
+        out = WRITERS[kind](**opts).write(cs, **(args or {}))
         return {"raised": False, "out": project.text_digest(out)}
     except Exception as e:
         return {"raised": True, "out": "raise:" + type(e).__name__}
@@ -144,11 +153,13 @@ def run_history(ops):
         o = op["op"]
         if o == "read":
             rk = op["reader"]
+            ctor = op.get("ctor", {})
+            rk = rk + "|" + json.dumps(ctor, sort_keys=True) if ctor else rk
             if op.get("fresh") or rk not in readers:
-                readers[rk] = READERS[op["kind"]]()
+                readers[rk] = READERS[op["kind"]](**ctor)
             nset += 1
             sid = "s%d" % nset
-            term = [["read", op["kind"], op.get("opts", {}), op["doc"]]]
+            term = [["read", op["kind"], op.get("opts", {}), op["doc"]] + ([ctor] if ctor else [])]
             ev = {"op": "read", "kind": op["kind"], "set": sid, "raised": False, "doc": op["doc"]}
             try:
                 sets[sid] = readers[rk].read(docs[op["doc"]][1], **op.get("opts", {}))
@@ -173,12 +184,13 @@ def run_history(ops):
             if op["set"] not in sets:
                 continue
             wk = op["writer"]
-            key = cfg_key(op["kind"], op.get("opts", {}))
-            if op.get("fresh") or (wk, key) not in writers:
-                writers[(wk, key)] = WRITERS[op["kind"]](**op.get("opts", {}))
+            okey = cfg_key(op["kind"], op.get("opts", {}))
+            key = cfg_key(op["kind"], op.get("opts", {}), op.get("args"))
+            if op.get("fresh") or (wk, okey) not in writers:
+                writers[(wk, okey)] = WRITERS[op["kind"]](**op.get("opts", {}))
             ev = {"op": "write", "kind": op["kind"], "set": op["set"], "cfg": key}
             try:
-                out = writers[(wk, key)].write(sets[op["set"]])
+                out = writers[(wk, okey)].write(sets[op["set"]], **op.get("args", {}))
                 ev["raised"] = False
                 ev["out"] = project.text_digest(out)
             except Exception as e:
@@ -216,7 +228,8 @@ def terms_of(ops):
     for op in ops:
         if op["op"] in ("read", "build"):
             n += 1
-            t = [["read", op["kind"], op.get("opts", {}), op["doc"]]] if op["op"] == "read" else [["build", op["desc"]]]
+            t = [["read", op["kind"], op.get("opts", {}), op["doc"]] + ([op["ctor"]] if op.get("ctor") else [])] \
+                if op["op"] == "read" else [["build", op["desc"]]]
             cur["s%d" % n] = t
             out.append(t)
         elif op["op"] == "edit" and op["set"] in cur:
